@@ -175,6 +175,7 @@ cxp, cyp = co * rx * y1p / ry, -co * ry * x1p / rx
 ctr = complex(c * cxp - s * cyp + (st.real + en.real) / 2, s * cxp + c * cyp + (st.imag + en.imag) / 2)
 scale = 1 + abs(st) + abs(en) + rx + ry
 bad = []
+if any(v != v for v in (a.center.real, a.center.imag, a.theta, a.delta, a.point(0.5).real)): bad.append(('not-a-number', a.center, a.theta, a.delta, a.point(0.5)))
 if abs(a.radius - complex(rx, ry)) > 1e-7 * scale: bad.append(('radius', a.radius, complex(rx, ry)))
 if abs(a.center - ctr) > 1e-5 * scale and abs(lam - 1) > 1e-6: bad.append(('center', a.center, ctr))
 if abs(a.point(0) - st) > 1e-5 * scale or abs(a.point(1) - en) > 1e-5 * scale: bad.append(('end points', a.point(0), a.point(1)))
